@@ -232,6 +232,8 @@ class Verdict:
 
 
 def write_evidence(prop, tier, level, coverage, wall, violations, assumptions=()):
+    global EVID
+    EVID = os.environ.get("VERIF_EVIDENCE_DIR", EVID)  # (the self-test writes its evidence to scratch space)
     os.makedirs(EVID, exist_ok=True)
     ev = {
         "property_id": prop,
@@ -286,6 +288,8 @@ def validate_batch(modules, root, records, timeout=1200, chunks=None, ndjson=Fal
 
     if not records:
         return [], 0
+    if os.environ.get("VERIF_NEGATIVE_CONTROL"):
+        records = corrupt_one(records, int(os.environ["VERIF_NEGATIVE_CONTROL"] or 1))
     chunks = chunks or min(NCPU, max(1, len(records) // 200))
     parts = [records[k::chunks] for k in range(chunks)]
 
@@ -321,3 +325,49 @@ def validate_batch(modules, root, records, timeout=1200, chunks=None, ndjson=Fal
     with ThreadPoolExecutor(chunks) as ex:
         res = list(ex.map(one, parts))
     return [b for bad, _ in res for b in bad], sum(n for _, n in res)
+
+
+def corrupt_one(records, salt=1):
+    """Negative control (./check selftest): change one observed field of one record - a limb-encoded number is increased by
+    about 2^-15 of its magnitude plus 2^-30, a digest string gets another first character - so that the trace specification,
+    if it really constrains that field, must reject the batch."""
+    import copy
+
+    def hit(o, state):
+        if isinstance(o, dict):
+            if set(o.keys()) == {"s", "m"}:
+                state["n"] += 1
+                if state["n"] == state["target"]:
+                    m = list(o["m"]) + [0] * max(0, 3 - len(o["m"]))
+                    k = max(0, len(m) - 2)
+                    m[k] = (m[k] + 1) % 32768
+                    m[1 if len(m) > 1 else 0] = (m[1 if len(m) > 1 else 0] + 1) % 32768
+                    o["m"] = m
+                    if o["s"] == 0:
+                        o["s"] = 1
+                    state["done"] = True
+                return
+            for k, v in o.items():
+                if state["done"]:
+                    return
+                if isinstance(v, str) and k in ("a", "b", "before", "after", "result", "sampled", "outcome") and len(v) > 3:
+                    state["n"] += 1
+                    if state["n"] == state["target"]:
+                        o[k] = ("X" if v[0] != "X" else "Y") + v[1:]
+                        state["done"] = True
+                        return
+                else:
+                    hit(v, state)
+        elif isinstance(o, list):
+            for v in o:
+                if state["done"]:
+                    return
+                hit(v, state)
+
+    recs = copy.deepcopy(records)
+    # corrupt the (salt)-th observed field of up to 40 records spread over the batch (a single record may be one whose
+    # corrupted field the property legitimately ignores, e.g. the allocation of a case that was refused)
+    step = max(1, len(recs) // 40)
+    for idx in range(step // 2, len(recs), step):
+        hit(recs[idx], dict(n=0, target=salt, done=False))
+    return recs
